@@ -34,9 +34,21 @@ RULE = ('failing evaluations only: a random target (short, long (lists of 40+ it
         'with probability 0.08 in 40% of the cases, and in 12% one random leaf position (callable, T, str path, function of a '
         'Call / Invoke, Switch key, default) is replaced by one; the property is evaluated on exc._target_spec_trace AND on '
         'str(exc) itself (the trace read from the message from its first Target: line on, the original error text it ends with '
-        'removed), and str(exc) must be header + model trace at the default width + traceback lines. non-trivial = >= 3 calls and (a branch or '
-        'a chain or a truncation); distinct = distinct (events, width)')
-TRUSTED = ['bbrepr of specs/targets and traceback.format_exception_only texts are taken as given strings']
+        'removed), and str(exc) must be header + model trace at the default width + traceback lines. '
+        'In 16% of the cases a value that crosses a DEFAULT size limit of reprlib (nesting of list / tuple / dict / frozenset / deque deeper '
+        'than 6; more than 6 items in a list / tuple / set / frozenset / deque, 5 in an array, 4 in a dict with int / str / mixed keys; a str of '
+        'more than 30 characters incl. quotes, backslashes, control, non-ASCII and non-printable characters; an int of more than 40 digits; '
+        'bytes / complex / range / builtin of more than 30; combinations) and whose repr is far shorter than a trace line - or, rarely, one that '
+        'crosses the limits glom sets (1024) - is the root target, the target of a later chain step, of a branch, of a dict value, or is injected '
+        '(Val(value), then a spec that fails on it) at a random leaf position of a random spec; or the SPEC is such a value (dict / tuple / list '
+        'specs nested 7-9 deep, dict specs with more than 4 entries, tuples with more than 6 steps, paths / keys / T expressions longer than 30 '
+        'characters). The tracer records the VALUE of every spec / target it can encode (builtin containers above leaves); the Lean model '
+        'renders them with its model of bbrepr under the limits extracted from glom\'s instance and must reproduce the text; the property is '
+        'evaluated against Python\'s own repr of the value (refRepr). In 10% of the cases bbrepr alone is compared with the model under RANDOM '
+        'limits (every reprlib limit between 0 and 60) on random values. non-trivial = >= 3 calls and (a branch or '
+        'a chain or a truncation) / a unit case in which something is elided; distinct = distinct (events, width)')
+TRUSTED = ['repr() of leaves that are not builtin containers / str / int (glom spec objects, floats, bytes …), which non-ASCII characters are '
+           'printable (str.isprintable, sent with the case) and traceback.format_exception_only texts are taken as given']
 ASSUMPTIONS = ['the Python traceback lines appended after the trace are Python\'s (not compared)',
                'the structural theorems (Props/C05Spine) are about evaluation trees: every recorded evaluation is checked to be '
                'the event list of a well-formed tree (a chained step continues from a sub-evaluation that returned; the root '
@@ -49,7 +61,7 @@ ASSUMPTIONS = ['the Python traceback lines appended after the trace are Python\'
                'the trace contained in a message is read from the first line with a Target: label on, after removing the type and '
                'message of the original error the message ends with (which may itself contain the trace of a nested glom call)']
 MANIFEST = dict(
-    text=("partial. Lean 4 model of glom's error bookkeeping exactly as coded (_glom's exception handler with the "
+    text=("Lean 4 model of glom's error bookkeeping exactly as coded (_glom's exception handler with the "
           "NO_PYFRAME walk, chain_child's re-wiring and forgiving, LAST_CHILD_SCOPE / CHILD_ERRORS / CUR_ERROR, "
           "_unpack_stack, format_target_spec_trace with its gutter marks, _format_trace_value) replayed over the "
           "recorded evaluation. Structural theorems for EVERY well-formed evaluation tree (call nodes whose "
@@ -83,13 +95,33 @@ MANIFEST = dict(
           "fails, e.g. the str() of a wrapped KeyError / OSError / user exception with its own __str__ before glom "
           "949a58d) and on the model's text for every recorded "
           "evaluation; the model must reproduce the real text character for character, and str(exc) must be the "
-          "header, the model's trace at the default width and the traceback lines."),
-    note=("partial: the lift from the rows to the rendered text (checkC05 of the model's text) is validated per case, "
-          "not proved; the relation of CHILD_ERRORS to the checker's failedBranches is proved for unchained "
-          "sub-evaluations only; repr of objects and the traceback tail are Python's. trusted: Lean kernel + "
+          "header, the model's trace at the default width and the traceback lines. "
+          "THE LIFT from rows to text is proved (Props/C05Text, by induction over the rows and the nesting of the branches, for "
+          "every well-formed tree, every width, with the texts of specs / targets / errors as parameters): c05_text_clause1..5 "
+          "and c05_text_check - the text format_target_spec_trace renders satisfies every clause of checkC05, under "
+          "hypotheses on the texts each of which is shown necessary by a concrete tree (c05_text_needs_one_line / "
+          "_label_free / _quiet_errors / _tid / _distinct_spec): no line break in a spec / target text; no line of an error "
+          "text reads as a Target: / Spec: line or carries a \\ mark; the identity of a target determines its text; no call "
+          "entered after the innermost failing call has a spec that renders like the innermost failing spec. The driver "
+          "evaluates these hypotheses on every recorded evaluation (they hold on ~90 %) and re-checks the conclusion. "
+          "VALUES (Props/C05Repr): bbrepr is modelled (reprlib.Repr.repr1 with its level count, _repr_iterable, repr_dict / "
+          "set / frozenset with _possibly_sorted, repr_str, repr_int, repr_instance, the builtin-name rule of _BBRepr.repr1, "
+          "str.__repr__) with the size limits as a parameter; the limits glom's instance really has are extracted on every "
+          "run (c05_facts_wf: exactly the limits the model knows, every one >= 1016, fill '...', no indent, no overridden "
+          "repr_* method); c05_repr_exact / c05_repr_exact_of_facts - a value within the limits is rendered exactly as "
+          "Python's repr (keys sorted, builtins by name); c05_repr_one_line - the text of a value has no line break; "
+          "c05_default_limits_elide - under reprlib's defaults short values are elided (C05-s9). The property is evaluated "
+          "against Python's repr of the recorded values (a line that elides the inside of a value that fits it does not "
+          "show the value)."),
+    note=("partial in what is taken as given: the repr() of leaves that are not builtin containers / str / int (glom spec "
+          "objects: each __repr__ calls bbrepr afresh), which characters are printable, and the Python traceback lines "
+          "after the trace; the hypotheses of the lift theorem do not hold of every evaluation (e.g. the text of a nested "
+          "glom error contains a trace) - there the clauses are validated per case; beyond the limits glom sets (1024) "
+          "the model elides like glom, the exactness theorem covers values below 1016 in every dimension; the relation of "
+          "CHILD_ERRORS to the checker's failedBranches is proved through the text (c05_text_clause4). trusted: Lean kernel + "
           "{propext, Classical.choice, Quot.sound}; harness/driver; the tracer (documented scope[glom] override) "
           "sees every nested evaluation."),
-    technique='Lean 4 model of the bookkeeping + structural theorems over evaluation trees (induction) with a per-case domain check + property predicate evaluated on real and model trace text (differential, character-exact)',
+    technique='Lean 4 model of the bookkeeping, of the renderer and of bbrepr + theorems over evaluation trees (induction): frame store, rows, and the lift to the rendered text (checkC05 of the model text, all clauses) + extracted reprlib limits (facts obligation) + per-case domain / hypothesis checks + property predicate evaluated on real and model trace text (differential, character-exact)',
     ref='DESIGN.md §3 C05')
 
 
